@@ -16,9 +16,10 @@ COMBOS = [(f, e) for f in FORMS for e in EXTRA]
 N_ENUM = len(COMBOS) * 3
 TXN_FORMS = ['*', '* "n"', '* "p" "n"', '! "" ""', '* "p" ""', 'txn "n" #t']
 CASES = {'quick': N_ENUM + len(TXN_FORMS) + 1500, 'thorough': N_ENUM + len(TXN_FORMS) + 60000}
+SMALL_BLOCKS = 4      # runner: every 4th case keeps its stores in 2..10-token blocks
 GATES = {
-    'quick': {'evaluations': 60000, 'cost_paths': 25000, 'cost_forms_accepted': 90, 'documented_rejections_observed': 1500,
-              'txn_paths': 1500, 'generic_assignments': 3000, 'generic_props_seen': 60, 'reparse_checks': 20000},
+    'quick': {'cases_in_small_blocks': 50, 'evaluations': 60000, 'cost_paths': 25000, 'cost_forms_accepted': 90, 'documented_rejections_observed': 1500,
+              'txn_paths': 1500, 'generic_assignments': 3000, 'generic_long_decimals': 8, 'generic_props_seen': 60, 'reparse_checks': 20000},
     'thorough': {'evaluations': 300000, 'cost_paths': 40000, 'generic_props_seen': 70},
 }
 RULE = ('three workloads. (1) cost group, exhaustive: from each of 18 concrete forms x 6 date/label/merge suffixes every assignment path '
@@ -31,7 +32,9 @@ RULE = ('three workloads. (1) cost group, exhaustive: from each of 18 concrete f
         'property of that model must read as before (documented groups aside), and both must survive print + re-parse of the file. '
         'One evaluation = one getter-after-setter comparison; non-trivial = the value differs from the previous one, or the record '
         'changed / a rejection occurred; distinct = hash(initial form, assignment path) resp. hash(text, path, property, value).')
-ASSUMPTIONS = ['values are compared as Decimal/date/str/bool, raw nodes by structural digest',
+ASSUMPTIONS = ['a negative value is read back through a unary minus, which rounds to the decimal context (28 digits): values with more '
+               'digits are assigned as positive numbers only',
+               'values are compared as Decimal/date/str/bool, raw nodes by structural digest',
                'in the generic workload the re-parsed model is located as the k-th model of its class in pre-order']
 
 VALS = {'number_per': [None, D(7)], 'number_total': [None, D(9)], 'currency': [None, 'CAD'], 'date': [None, datetime.date(2001, 2, 3)],
@@ -276,11 +279,19 @@ def generic_case(col, r, idx):
         if not nodes:
             return
         path, m = r.choice(nodes)
-        a, d, k = r.choice(value_props(m))
+        vp = value_props(m)
+        nums = [x for x in vp if 'number' in x[0] or x[0] in ('tolerance', 'value')]
+        a, d, k = r.choice(nums) if nums and r.random() < 0.4 else r.choice(vp)      # (comment properties would dominate otherwise)
         if a == 'indent' or a in GROUPS.get(type(m), ()):
             continue        # the dependent groups have their own record-model workloads
         try:
             op = g.value_op(path, m, a, d, k)
+            if op is not None and idx % 8 == 0 and trial == 0 and isinstance(op.assigned, D):
+                # every 8th document: a positive value with more digits than the decimal context keeps (no arithmetic is involved
+                # in storing and reading it)
+                lv = D(f'{r.randint(10 ** 28, 10 ** r.randint(29, 40))}E-{r.randint(0, 30)}')
+                op = ops.Op(op.kind, f'{path}.{a} = {lv!r}', m, path, op.slot, lambda: setattr(m, a, lv), attr=a)
+                op.assigned = lv
         except (decimal.DecimalException, ZeroDivisionError):
             continue
         if op is None:
@@ -300,6 +311,8 @@ def generic_case(col, r, idx):
         col.count('gprop:' + cls.__name__ + '.' + a)
         after = read_all(m)
         assigned = op.assigned
+        if isinstance(assigned, D) and len(assigned.as_tuple().digits) > 28:
+            col.count('generic_long_decimals')
         got = after.get(a)
         if got != norm(assigned):
             col.violation(f'generic:readback:{cls.__name__}.{a}', f'{op.desc}: reads back {got!r:.100}', wit)
